@@ -6,7 +6,7 @@ import re
 
 from . import config as cfg
 from . import gen, hist, sexpr
-from .runner import Check, VERIF, bump, death_of, empty_result, log_hash, stable_hash, sub_rng
+from .runner import Check, VERIF, sim_ticks, bump, death_of, empty_result, log_hash, stable_hash, sub_rng
 
 KNOWN_HEADS = {'set-logic', 'set-option', 'set-info', 'get-info', 'get-option', 'declare-sort', 'declare-fun', 'declare-const', 'define-fun', 'assert', 'check-sat',
                'push', 'pop', 'get-model', 'get-value', 'get-assignment', 'get-unsat-core', 'get-interpolants', 'get-proof', 'echo', 'exit', 'simplify'}
@@ -202,6 +202,7 @@ class C20(Check):
         rp2 = o.run(x_plan(case['script'], 'pipe', chunks=case['chunks2']))
         res['hash'] = stable_hash([log_hash(rf), log_hash(rp), log_hash(rp2)])
         bump(res, 'runs', 3)
+        bump(res, 'sim-ticks', sim_ticks(rf) + sim_ticks(rp) + sim_ticks(rp2))
         of, cf, df = x_outcome(rf)
         op, cp, dp = x_outcome(rp)
         op2, cp2, dp2 = x_outcome(rp2)
@@ -289,6 +290,7 @@ class C23(Check):
         rd = o.run(x_plan(case['script'], mode, heap_seed=case['heap_a'], clock=case['clock_b']))
         res['hash'] = stable_hash([log_hash(ra), log_hash(rb), log_hash(rd)])
         bump(res, 'runs', 4)
+        bump(res, 'sim-ticks', sum(sim_ticks(r) for r in (ra, rb, rc, rd)))
         outs = [x_outcome(r) for r in (ra, rb, rc, rd)]
         for (_, _, d) in outs:
             if d and d[0] == 'harness':
@@ -407,6 +409,7 @@ class C18(Check):
         resp = ctx.osim(flav).run(plan)
         res['hash'] = log_hash(resp) if flav == 'sim' else stable_hash([resp.get('stdout'), resp.get('exit'), resp.get('sig')])
         bump(res, 'runs')
+        bump(res, 'sim-ticks', sim_ticks(resp))
         bump(res, 'flavour:' + flav)
         for k in case['damage']:
             bump(res, 'F-' + ('eof' if k == 'truncate' else 'flip:' + k))
